@@ -113,7 +113,38 @@ theorem L2 : ∀ t : GTree, bst ikey t → ((keys ikey t).card : Int) = cnt t :=
     push_cast
     omega
 
+/-- L3: a log segment `key lo .. key (hi-1)` that is strictly increasing, holds only keys of the search
+tree `t` and holds every key of `t`, has exactly `cnt t` entries (used by `Len`). -/
+theorem L3 (t : GTree) (key : Int → Int) (lo hi : Int) (hle : lo ≤ hi) (hb : bst ikey t)
+    (hin : ∀ i, lo ≤ i → i < hi → mem ikey (key i) t)
+    (hord : ∀ i j, lo ≤ i → i < j → j < hi → key i < key j)
+    (hcov : ∀ k, mem ikey k t → ∃ i, lo ≤ i ∧ i < hi ∧ key i = k) :
+    hi - lo = cnt t := by
+  have himg : (Finset.Ico lo hi).image key = keys ikey t := by
+    ext k
+    simp only [Finset.mem_image, Finset.mem_Ico, mem_keys]
+    constructor
+    · rintro ⟨i, ⟨h1, h2⟩, rfl⟩
+      exact hin i h1 h2
+    · intro hk
+      obtain ⟨i, h1, h2, h3⟩ := hcov k hk
+      exact ⟨i, ⟨h1, h2⟩, h3⟩
+  have hinj : Set.InjOn key (↑(Finset.Ico lo hi) : Set Int) := by
+    intro a ha b hb' hab
+    simp only [Finset.coe_Ico, Set.mem_Ico] at ha hb'
+    by_contra hne
+    rcases lt_or_gt_of_ne hne with h | h
+    · have := hord a b ha.1 h hb'.2; omega
+    · have := hord b a hb'.1 h ha.2; omega
+  have hcard := Finset.card_image_of_injOn hinj
+  rw [himg] at hcard
+  have h2 := L2 ikey t hb
+  rw [hcard, Int.card_Ico] at h2
+  rw [← h2]
+  omega
+
 end GTree
 
 #print axioms GTree.L1
 #print axioms GTree.L2
+#print axioms GTree.L3
